@@ -100,6 +100,8 @@ def gen_scenario(rng, index, faults_enabled):
         progs.append(gen.gen_program(rng, f"r{index}t{len(progs)}", **opts))
     for j in range(rng.choice([1, 2, 3])):
         progs.append(gen.variant_of(rng, rng.choice(progs[:n_base]), f"r{index}t{len(progs)}"))
+    if rng.random() < 0.35:
+        progs.append(gen.near_variant_of(rng, rng.choice(progs), f"r{index}t{len(progs)}"))
     n_valid_intended = len(progs)
     for j in range(rng.choice([1, 2, 3, 4])):
         progs.append(gen.gen_invalid(rng, rng.choice(progs[:n_valid_intended]), f"r{index}t{len(progs)}"))
@@ -202,12 +204,13 @@ class Runner:
         j["stderr"] = bool(self.err.take())
         return j
 
-    @staticmethod
-    def check_foreign(o, tid, all_tids, who):
+    def check_foreign(self, o, tid, all_tids, who):
+        """A returned label that carries the id of ANOTHER text of the alphabet and does not occur anywhere in this
+        text's own source can only come from interference between texts / evaluators."""
         if o[0] == "ok" and o[1] == "str":
             lab = o[2][1:-1]
             head = lab.split(".", 1)[0]
-            if head != tid and head in all_tids:
+            if head != tid and head in all_tids and lab not in self.sources.get(tid, ""):
                 raise Violation("foreign-label", f"{who} returned group {o[2]} which belongs to text {head}")
 
     def count_stage_events(self, text):
@@ -242,6 +245,7 @@ class Runner:
     def _run(self, sc, trace):
         texts = sc["texts"]
         all_tids = {t["tid"] for t in texts}
+        self.sources = {t["tid"]: t["text"] for t in texts}
         step_log = []
         info = {"ops_executed": 0, "states": set(), "crash_sites": set()}
         try:
